@@ -303,10 +303,24 @@ detector (corrected, §0).
 
 * All 15 properties have quick and thorough commands; thorough tiers add the
   libFuzzer campaigns (16 parallel jobs) for C03/C05 (`stream_case`), C04
-  (`ctor_case`), C09 (`tree_history`), C14 (`schedule`).
-* Ideas not done: tree mutation actions inside C14 schedules; Hypergeometric
-  H2PE precision at N >= 2^53; Poisson MAX_LAMBDA; a cancellation-free Zipf
-  near s = 1 and InverseGaussian<f32> (both blocked by value_stability).
+  (`ctor_case`), C08 (`alias_vector`), C09 (`tree_history`), C10
+  (`tree_sample`), C14 (`schedule`). The last full thorough sweep on the
+  repaired tree passed for all 15 (≈ 3.5 h on 16 cores; C06 33 min, C09 48 min,
+  C03 30 min, C01 17 min are the long ones).
+* Five rounds of seeded changes (161 kept) are under `seeded/`; evaluate with
+  `scripts/eval_seeded.sh <id>[:CHECK[:TIER]] …` (applies to /repo, runs
+  `check.sh`, reverts). Patches touching files changed by later `fix:` commits
+  may need `git apply -3` (the script tries it) or a rebase (done for
+  R2-C02-1, R2-C02-2).
+* Rule learnt the hard way: after every `fix:` commit run the *thorough* tier of
+  the properties of the touched family before ending the session (the BTPE
+  end-point regression of fix 49f8c75 was invisible to everything cheaper).
+* Ideas not done: a bit-exact self-describing serde format for C15 (JSON
+  cannot carry non-finite floats: such documents are judged only when the
+  type's own deserialiser accepts them); tree mutation actions inside C14
+  schedules; Hypergeometric ln-factorial differences (finding
+  C05/C03-Hypergeometric-h2pe-huge-N) and Poisson MAX_LAMBDA; a
+  cancellation-free InverseGaussian<f32> (blocked by value_stability).
 '''
 open(p,'w').write(s+appd)
 print(len(s+appd))
